@@ -155,9 +155,42 @@ def construction_order_probe(res):
                 break
 
 
+def few_pieces_probe(res, rng, tier):
+    """Closed curves handed a user space grid with one or two pieces per slab (the constructor must bring every slab to at
+    least three panels, otherwise two panels touch at BOTH ends): additivity over the quarters on all leaf pairs."""
+    import math
+    from src.mesh import MeshParametrized
+    import src.parametrization as P
+    from src.single_layer import SingleLayerOperator
+    from src.hierarchical_error_estimator import DummyElement
+    cases = [('Circle', [0, math.pi, 2 * math.pi]), ('UnitSquare', [0, 2, 4]), ('Circle', [0, 2 * math.pi]), ('UnitSquare', [0, 1, 4])]
+    for cname, grid in cases[:(2 if tier == 'quick' else 4)]:
+        try:
+            with contextlib.redirect_stdout(io.StringIO()):
+                mesh = MeshParametrized(getattr(P, cname)(), initial_space_mesh=list(grid))
+                SL = SingleLayerOperator(mesh)
+        except AssertionError:
+            continue
+        els = list(mesh.leaf_elements)
+        pairs = [(a, b) for a in els for b in els]
+        rng.shuffle(pairs)
+        for te, tr in pairs[:(12 if tier == 'quick' else 60)]:
+            parent = SL.bilform(tr, te)
+            kt, kr = DummyElement.uniform_refinement([te])[0], DummyElement.uniform_refinement([tr])[0]
+            s = sum(SL.bilform(b, a) for a in kt for b in kr)
+            sc = math.sqrt(abs(SL.bilform(te, te) * SL.bilform(tr, tr)))
+            res.count(('few-pieces', cname, tuple(grid), repr(te), repr(tr)), True)
+            if abs(s - parent) > 1e-7 * sc:
+                res.violation('C11:not-additive:few-pieces-per-slab',
+                              dict(curve=cname, initial_space_mesh=[float(g) for g in grid], leaves_per_slab=len(els), test=describe(te),
+                                   trial=describe(tr), parent=float(parent), sum_of_quarters=float(s), scaled_defect=abs(s - parent) / sc))
+                break
+
+
 def search(res, tier, boost=False):
     rng = seed_rng(res.seed, 'C11s')
     construction_order_probe(res)
+    few_pieces_probe(res, rng, tier)
     curves = ['UnitSquare', 'Circle', 'LShape', 'PiSquare']
     n_mesh = (3 if tier == 'quick' else 12) * (2 if boost else 1)
     n_pairs = 8 if tier == 'quick' else 20
